@@ -95,6 +95,7 @@ Next ==
               verdict ==
                 IF failed THEN "ok"
                 ELSE IF e.exc = 1 THEN "link_raised"
+                ELSE IF \E k \in 1..Len(e.post) : e.post[k].wild = 1 THEN "link_table_holds_absurd_value"
                 ELSE IF ~FramingText(kind, frs, np, no) THEN "link_framing"
                 ELSE IF ~fwd THEN "link_netsource_forwarding"
                 ELSE IF e.dup = 1 THEN "two_keys_for_one_address"
